@@ -32,8 +32,9 @@ structure Decl where
 
 /-- `parseMarkerComment`: `//govalid:…` and `// +govalid:…` both reduce to `govalid:…` -/
 def parseMarkerComment (text : String) : Option String :=
-  if text.startsWith "//govalid:" then some (text.drop 2).toString
-  else if text.startsWith "// +govalid:" then some (text.drop 4).toString
+  let cs := text.toList
+  if "//govalid:".toList.isPrefixOf cs then some (String.ofList (cs.drop 2))
+  else if "// +govalid:".toList.isPrefixOf cs then some (String.ofList (cs.drop 4))
   else none
 
 /-- `extractMarker`: split on the first '=' -/
